@@ -404,11 +404,117 @@ example : (step fnsAscii [] (runOps fnsAscii [] {} [.addFile 1 zqxv []]) (.lint 
 
 /-- **All other lints are unchanged** — under the modelling assumption that non-spelling rules are
 a function `other` of the text alone (C11's independence; monitored by the oracle, which compares
-every non-spelling lint of the text before and after each add): no operation changes them. -/
+every non-spelling lint of the text before and after each add): no operation changes them.
+The assumption is FALSE of two rules, which read the dictionary / the metadata an added word
+acquires (recorded findings `c07-capitalization-consults-dictionary`: SentenceCapitalization skips a
+sentence-initial word whose dictionary spelling is mixed-case; `c07-oxford-comma-reads-word-metadata`:
+OxfordComma inspects the first two words that HAVE metadata); the monitor excepts exactly these. -/
 theorem other_lints_unchanged (f : Fns) (cur : List Entry) (other : List Char → List Nat)
     (s : State) (op : Op) (name : Nat) (text : List Char) (qs : List Word) :
     (lintAll f cur other (step f cur s op).1 name text qs).2
       = (lintAll f cur other s name text qs).2 := rfl
+
+/-! ## the rebuild decision (`doc_state.dict != dict`) -/
+
+/-- the assumption on the hash: the character sequences seen get pairwise different hashes
+(decidable for a concrete hash; for foldhash it is a 64-bit collision assumption) -/
+abbrev HashInjectiveOnSeen (h : List Char → Nat) (seen : List (List Char)) : Prop :=
+  ∀ a ∈ seen, ∀ b ∈ seen, h a = h b → a = b
+
+theorem stream_length_perm {a b : List Word} (p : a.Perm b) :
+    (stream a).length = (stream b).length := p.flatten.length_eq
+
+/-- **The rebuild decision is sound for an add to the user dictionary.** The document holds a merged
+dictionary whose user child enumerated the words `old` (in any order `oldIt`); the add of a
+non-empty word `w` with a new key makes the user dictionary `old ++ [w]`, reloaded and enumerated
+in any order `newIt`. If the hash separates the two character streams, `MergedDictionary`'s `==`
+reports a change, so `update_document` installs the new dictionary and rebuilds the linter —
+whatever the file-dictionary children are. (This is what lets `Model/DictIO.step` and
+`Server.dictDiffers` treat the comparison as exact.) -/
+theorem rebuild_decision_sound (h : List Char → Nat) (old oldIt newIt : List Word) (w : Word)
+    (fileHeld fileLoaded : Child) (hold : oldIt.Perm old) (hnew : newIt.Perm (old ++ [w]))
+    (hw : w ≠ []) (hinj : HashInjectiveOnSeen h [stream oldIt, stream newIt]) :
+    mergedEq h [.curated, .words oldIt, fileHeld] [.curated, .words newIt, fileLoaded] = false ∧
+    heldAfter h [.curated, .words oldIt, fileHeld] [.curated, .words newIt, fileLoaded]
+      = [.curated, .words newIt, fileLoaded] := by
+  have hlen : (stream newIt).length = (stream oldIt).length + w.length := by
+    rw [stream_length_perm hnew, stream_length_perm hold]
+    simp [stream]
+  have hne : stream oldIt ≠ stream newIt := by
+    intro he
+    have : w.length = 0 := by rw [he] at hlen; omega
+    exact hw (List.eq_nil_of_length_eq_zero this)
+  have hh : h (stream oldIt) ≠ h (stream newIt) :=
+    fun e => hne (hinj _ (by simp) _ (by simp) e)
+  have hfalse : mergedEq h [.curated, .words oldIt, fileHeld]
+      [.curated, .words newIt, fileLoaded] = false := by
+    simp [mergedEq, fingerprint, childHash, hh]
+  exact ⟨hfalse, by simp [heldAfter, hfalse]⟩
+
+/-- the same for an add to the document's file dictionary (third child) -/
+theorem rebuild_decision_sound_file (h : List Char → Nat) (old oldIt newIt : List Word) (w : Word)
+    (userHeld userLoaded : Child) (hold : oldIt.Perm old) (hnew : newIt.Perm (old ++ [w]))
+    (hw : w ≠ []) (hinj : HashInjectiveOnSeen h [stream oldIt, stream newIt]) :
+    mergedEq h [.curated, userHeld, .words oldIt] [.curated, userLoaded, .words newIt] = false := by
+  have hlen : (stream newIt).length = (stream oldIt).length + w.length := by
+    rw [stream_length_perm hnew, stream_length_perm hold]
+    simp [stream]
+  have hne : stream oldIt ≠ stream newIt := by
+    intro he
+    have : w.length = 0 := by rw [he] at hlen; omega
+    exact hw (List.eq_nil_of_length_eq_zero this)
+  have hh : h (stream oldIt) ≠ h (stream newIt) :=
+    fun e => hne (hinj _ (by simp) _ (by simp) e)
+  simp [mergedEq, fingerprint, childHash, hh]
+
+-- non-vacuity: the injective stand-in hash on a concrete add, orders shuffled
+example : HashInjectiveOnSeen hashInj [stream [abcq, zqxv], stream [Zqxv.reverse, zqxv, abcq]] ∧
+    mergedEq hashInj [.curated, .words [abcq, zqxv], .words []]
+      [.curated, .words [Zqxv.reverse, zqxv, abcq], .words []] = false := by decide
+
+/-- **An XOR-combining fingerprint breaks the decision.** For ANY per-character hash `g`, a word in
+which every character occurs an even number of times (`xoxo`) leaves the XOR fingerprint of the
+stream unchanged: the hypothesis `HashInjectiveOnSeen` fails, `==` reports "no change", … -/
+theorem xor_fingerprint_misses_xoxo (g : Char → Nat) (s : List Char) :
+    xorHash g (s ++ ['x', 'o', 'x', 'o']) = xorHash g s ∧
+    ¬ HashInjectiveOnSeen (xorHash g) [s, s ++ ['x', 'o', 'x', 'o']] := by
+  have h1 : xorHash g (s ++ ['x', 'o', 'x', 'o']) = xorHash g s := by
+    simp only [xorHash, List.foldl_append, List.foldl_cons, List.foldl_nil]
+    generalize List.foldl (fun acc c => acc ^^^ g c) 0 s = a
+    rw [Nat.xor_assoc (a ^^^ g 'x'), Nat.xor_comm (g 'o'), ← Nat.xor_assoc (a ^^^ g 'x'),
+      Nat.xor_assoc a, Nat.xor_self, Nat.xor_zero, Nat.xor_assoc, Nat.xor_self, Nat.xor_zero]
+  refine ⟨h1, fun hinj => ?_⟩
+  have := hinj s (by simp) (s ++ ['x', 'o', 'x', 'o']) (by simp) h1.symm
+  have hl := congrArg List.length this
+  simp at hl
+
+/-- … and the open document keeps its old dictionary: after `add xoxo` the file holds the word, a
+fresh check accepts it, but the document's held dictionary still reports it. -/
+theorem xor_fingerprint_keeps_stale_linter :
+    mergedEq (xorHash Char.toNat) [.curated, .words [zqxv], .words []]
+      [.curated, .words [zqxv, ['x', 'o', 'x', 'o']], .words []] = true ∧
+    heldAfter (xorHash Char.toNat) [.curated, .words [zqxv], .words []]
+      [.curated, .words [zqxv, ['x', 'o', 'x', 'o']], .words []]
+      = [.curated, .words [zqxv], .words []] ∧
+    acceptM fnsAscii [[], entries [zqxv], []] ['x', 'o', 'x', 'o'] = false ∧
+    acceptM fnsAscii [[], entries [zqxv, ['x', 'o', 'x', 'o']], []] ['x', 'o', 'x', 'o'] = true := by
+  decide
+
+/-- **The real `==` ignores word boundaries.** Whatever the hash, `{ab, c}` and `{a, bc}` compare
+equal when enumerated in these orders: a hand-edited dictionary file can change without the open
+document noticing. Not reachable by add commands alone (`rebuild_decision_sound`: the stream grows).
+(Finding `c07-dict-eq-no-word-boundaries`.) -/
+theorem eq_ignores_word_boundaries (h : List Char → Nat) :
+    mergedEq h [.curated, .words [['a', 'b'], ['c']], .words []]
+      [.curated, .words [['a'], ['b', 'c']], .words []] = true := by
+  simp [mergedEq, fingerprint, childHash, stream]
+
+/-- … and a REPLACING add (same key, other case) can be invisible too: `{A, aA}` enumerated `A, aA`
+and `{A, Aa}` enumerated `Aa, A` have the same stream -/
+theorem replacing_add_can_be_invisible (h : List Char → Nat) :
+    mergedEq h [.curated, .words [['A'], ['a', 'A']], .words []]
+      [.curated, .words [['A', 'a'], ['A']], .words []] = true := by
+  simp [mergedEq, fingerprint, childHash, stream]
 
 /-! ## the JS API -/
 
